@@ -38,27 +38,37 @@ RULE = (
     'incompressible, and (read side) frame-like payload made of valid '
     'keep-alive frames.  Read-side frame shapes: vanilla rule, compressed '
     'although small, uncompressed although large, zlib levels 0/1/9, '
-    'non-canonical length prefix padded by 1 or 2 bytes (<= 3 bytes in all). '
-    'Sequences: every single letter of the full product; all sequences of '
-    'length 2 and 3 over a reduced per-threshold alphabet (write: 5 kinds x '
-    '{n=0, body=T, body=T+1} + 2 keep-alives; read: 7-8 letters mixing known/'
-    'unknown ids, compressed/uncompressed, padded, frame-like payloads).  '
-    'READ SEGMENTATIONS per stream of L bytes: whole; uniform chunk sizes '
-    '1..8; ALL 2^(L-1) compositions when L <= 12 (quick) / 16 (thorough) for '
-    'the core streams (all sequences of length 1-3 over 3-4 tiny letters); '
-    'every 1-cut when L <= 300 (quick) / 4096 (thorough), otherwise the cuts '
-    'within 2 bytes of every structural offset (frame start, end of length '
-    'prefix, end of data-length field, frame end) plus a stride of L/48; '
-    'every 2-cut for core streams with L <= 64 (quick) / 400 (thorough) '
-    '(core = all sequences of length 1-3 over 4 mixed letters, plus in the '
-    'thorough tier every reduced-alphabet sequence); for all other streams '
-    'the 2-cuts whose both cuts are structural offsets (quick: STRIDED, not '
-    'all 2-cuts).  With encryption the segmentation applies to the '
-    'ciphertext.  One execution = one (configuration, sequence) written, or '
-    'one (configuration, sequence, segmentation) read; all executions are '
-    'distinct by construction (streams de-duplicated by configuration and '
-    'letters, segmentations by cut set); the un-segmented read of a stream '
-    'is counted as trivial.')
+    'non-canonical length prefix padded by 1 or 2 bytes (<= 3 bytes in all), '
+    'compressed+padded (quick tier: all nine shapes for three kinds, the '
+    'first three for the other four).  Sequences: every single letter of the '
+    'full product; all sequences of length 2 and 3 over a reduced '
+    'per-threshold alphabet (write: 5 kinds x {n=0, body=T, body=T+1} + 2 '
+    'keep-alives; read: 7-8 letters mixing known/unknown ids, compressed/'
+    'uncompressed, padded, frame-like payloads; quick tier: length 3 over '
+    'the first six of them); all sequences of length 1-3 '
+    'over 3-4 tiny letters (unknown ids, 2-5 byte frames) and over 3-4 mixed '
+    'letters (keep-alive, plugin message, compressed plugin message): the '
+    'CORE streams.  READ SEGMENTATIONS per stream of L bytes: whole; uniform '
+    'chunk sizes 1..8 (streams over 4 KiB: a subset, each pass is O(L^2)); '
+    'ALL 2^(L-1) compositions for core streams with L <= 12 (quick) / 16 '
+    '(thorough); every 1-cut when L <= 128 (quick) / 4096 (thorough), '
+    'otherwise the cuts within 2 bytes of every structural offset (frame '
+    'start, end of length prefix, end of data-length field, frame end), the '
+    'first and last 8, and a stride of L/48; every 2-cut for core streams '
+    'with L <= 56 (quick) / 400 (thorough) and, thorough only, for every '
+    'reduced-alphabet sequence of length 2 with L <= 400 and of length 3 '
+    'with L <= 64; for all other streams only the 2-cuts whose both cuts are '
+    'structural offsets (thorough: within 1 byte of one) - i.e. for those '
+    'streams the 2-cuts are a STRIDED subset, not all.  With encryption the '
+    'segmentation applies to the ciphertext.  Each stream is also read '
+    'whole and in 1-byte reads by a real PlayingReactor (full id table of '
+    '757); all other executions use a PacketReactor subclass (real __init__ '
+    'and read_packet) whose table holds the three known classes.  One '
+    'execution = one (configuration, sequence) written, or one '
+    '(configuration, sequence, segmentation) read; executions are distinct '
+    'by construction (streams de-duplicated by configuration and letters, '
+    'segmentations by cut set); the two un-segmented reads of a stream are '
+    'counted as trivial.')
 ASSUMPTIONS = [
     'refproto.framing / refproto.cfb8 (self-tested against hand-made frames '
     'and the NIST CFB8 vector) define the wire format',
@@ -593,9 +603,13 @@ class Stream(object):
         if r:
             yield r
         ks = range(1, 9)
-        if L > 4096 and not thorough:
+        if L > 4096:
             # every 1-byte pass over a 16 KiB frame costs O(L^2) in pyCraft
-            ks = (1, 5) if self.letters[0][3] in ('v', 'C') else (7,)
+            main = self.letters[0][3] in ('v', 'C')
+            if thorough:
+                ks = range(1, 9) if main else (1, 7)
+            else:
+                ks = (1, 5) if main else (7,)
         for k in ks:
             r = emit('uniform', tuple(range(k, L, k)))
             if r:
@@ -612,7 +626,7 @@ class Stream(object):
                 yield r
         two_all = 0
         if mode == 'core':
-            two_all = 400 if thorough else 64
+            two_all = 400 if thorough else 56
         elif mode == 'pairs':
             two_all = 400 if len(self.letters) <= 2 else 64
         if L <= two_all:
@@ -681,6 +695,11 @@ def read_stream(ctx, T, enc, letters, mode, seed):
     ctx.cls('read stream: %d packet(s)%s' % (len(letters),
                                              ', encrypted' if enc else ''))
     ctx.extra['read_streams'] = ctx.extra.get('read_streams', 0) + 1
+    if bad is None and mode == 'core' and len(letters) == 3:
+        ctx.sample({'side': 'read', 'threshold': T, 'encrypted': enc,
+                    'letters': [lstr(l) for l in letters],
+                    'stream': st.plain[:48], 'bytes': st.L,
+                    'segmentations': dict(by)}, cap=1)
     if bad is None:
         ctx.outcome('read: %d packet(s) recovered exactly, then None'
                     % len(letters), n)
@@ -781,12 +800,12 @@ def read_alphabet(T):
         return [('cpm', 0, 'c', 'v'), ('cpm', 20, 'r', 'p1'),
                 ('cka', 0, 'z', 'v'), ('u1', 0, 'c', 'v'),
                 ('u1', 12, 'f', 'p2'), ('u3', 30, 'f', 'v'),
-                ('cchat', 5, 'c', 'v')]
+                ('cchat', 5, 'c', 'v')]       # [:6] for quick length 3
     big = edge('cpm', T)[-1]
     return [('cpm', 0, 'c', 'v'), ('cpm', max(big, 3), 'r', 'C'),
-            ('cka', 0, 'z', 'v'), ('cka', 1, 'z', 'C1'),
-            ('u1', 0, 'c', 'v'), ('u1', 12, 'f', 'U'),
-            ('u3', 30, 'f', 'Cp1'), ('cchat', 5, 'c', 'p1')]
+            ('cka', 0, 'z', 'v'), ('u1', 0, 'c', 'v'),
+            ('u1', 12, 'f', 'U'), ('u3', 30, 'f', 'Cp1'),
+            ('cka', 1, 'z', 'C1'), ('cchat', 5, 'c', 'p1')]
 
 
 def tiny_alphabet(T):
@@ -825,7 +844,12 @@ def read_plan(T, seed, thorough):
             plan[seq] = mode
     for seq in read_singles(T, seed, thorough):
         add(seq, 'light')
-    for seq in sequences(read_alphabet(T), (2, 3)):
+    al = read_alphabet(T)
+    for seq in sequences(al, (2,)):
+        add(seq, 'pairs' if thorough else 'light')
+    if not thorough:        # quick: length 3 over the first six letters
+        al = al[:6]
+    for seq in sequences(al, (3,)):
         add(seq, 'pairs' if thorough else 'light')
     for seq in sequences(tiny_alphabet(T), (1, 2, 3)):
         add(seq, 'core')
@@ -901,8 +925,11 @@ def run(ctx):
     ctx.extra['read_stream_bytes_max'] = 16384 + 3
     ctx.extra['planned_write_streams'] = n_w
     ctx.extra['planned_read_streams'] = n_r
-    ctx.sample({'write': 'spm n=T+1 counter, threshold 64, encrypted',
-                'read': 'u1/12/f/U + cpm/.../r/C + cka: every 2-cut'})
+    ctx.sample({'side': 'write', 'threshold': 64, 'encrypted': True,
+                'letters': ['spm/%d/c' % edge('spm', 64)[-1], 'ka/1/z',
+                            'g3/0/c'],
+                'oracle': 'CFB8-decrypt, deframe each written slice: exactly '
+                          'one frame (id, payload) per packet, nothing left'})
     # vacuity guards: the interesting classes must really have been hit
     need = ['write: frame compressed', 'write: frame data-length 0',
             'write: frame without data-length', 'write: frame length 127',
